@@ -359,13 +359,16 @@ def _op_mrobust(ctx, op, state):
             ctx.violate("exact-core", "robust", sig, f"robust solver on the sum of the fitted core models of {[a['z'] for a in m['atoms']]} off by {err:.3g} (> {CORE_BOUND}); draw {beh}:{bseed}")
     elif not np.isfinite(err) or err > _acc_bound(ctx):
         ctx.violate("accuracy", "robust", sig, f"robust potential on the molecular grid off by {err:.3g}")
-    prev = state["results"].get(("mrobust", kind))
+    # (the second split fits atom after atom, in the order the caller lists them: another atom order or another order of
+    # the exponents is another - equally valid - decomposition, equal only to the solver's accuracy, not to its tolerance)
+    rkey2 = ("mrobust", kind) if kind != "core+fit" else ("mrobust", kind, gb, bseed % 3, (bseed // 3) % 2)
+    prev = state["results"].get(rkey2)
     if prev is not None:
         sp = float(np.max(np.abs(prev - v))) / scale
         ctx.nontrivial = True
         if sp > _spread_bound(ctx):
             ctx.violate("draw-dependence", "robust", sig, f"robust potential on the molecular grid differs by {sp:.3g} between draws / atom orders")
-    state["results"][("mrobust", kind)] = v
+    state["results"][rkey2] = v
     state.setdefault("held_pots", []).append((sig, holder["pot"], v.copy(), spec, 0.0))
     del state["held_pots"][:-3]
     if kind == "core+smooth" and "rho1" in state["results"]:
